@@ -495,10 +495,16 @@ func (e *expression) Value(ctx *hcl.EvalContext) (cty.Value, hcl.Diagnostics) {
 			keyMarks = append(keyMarks, nameMarks)
 			nameStr := name.AsString()
 			if _, defined := attrs[nameStr]; defined {
+				// We don't know what marks represent at the calling application
+				// layer, so a name that came from a marked value is not shown.
+				nameDesc := fmt.Sprintf("An attribute named %q", nameStr)
+				if len(nameMarks) > 0 {
+					nameDesc = "An attribute of the same name"
+				}
 				diags = append(diags, &hcl.Diagnostic{
 					Severity:    hcl.DiagError,
 					Summary:     "Duplicate object attribute",
-					Detail:      fmt.Sprintf("An attribute named %q was already defined at %s.", nameStr, attrRanges[nameStr]),
+					Detail:      fmt.Sprintf("%s was already defined at %s.", nameDesc, attrRanges[nameStr]),
 					Subject:     &jsonAttr.NameRange,
 					Expression:  e,
 					EvalContext: ctx,
